@@ -14,6 +14,14 @@ CHECKS = {
         note="trusted: CPython 3 as reference; the generator's whitelist of shared constructs (documented differences such as list.pop(-1), duplicate dict-literal keys, i32 index parameters are excluded and listed in DESIGN.md)",
         technique="differential transcript oracle vs reference interpreter over generated programs",
         ref="DESIGN.md section 3 C01"),
+    "C02": dict(
+        engine="svh",
+        text="Metamorphic equivalence: each generated full-dialect program is executed as printed, with every literal operand hidden behind a native identity function, with every callee and method receiver hidden, with both, "
+             "and with module-level names assigned twice; the same body in a function is executed unfrozen, frozen-and-loaded, and called from the host through eval_function. All transcripts (values, side-effect order, error message head) "
+             "must equal the fully opacified variant, which the optimiser can do nothing with. Held on the (program, variant, mode) runs executed.",
+        note="trusted: CPython's ast module as parser/printer for the rewrites (generated programs are in the common syntax); opaque() is invisible to the optimiser; call stacks and locations are not compared",
+        technique="metamorphic equivalence monitor over opacifying rewrites x execution modes",
+        ref="DESIGN.md section 3 C02"),
     "C03": dict(
         engine="svh",
         text="Each generated heap-heavy program (cyclic/aliased containers, closures, records, partials, bound methods, frozen loaded values, embedder-set variables, extra_value, several ASTs on one module) "
@@ -56,6 +64,14 @@ CHECKS = {
         note="trusted: the mutator catalogue (checked against dir() of the live tree; unknown methods are reported inconclusive); builtins that call back may legitimately have finished iterating; one open known finding (error exit never releases) keyed on its exact signature",
         technique="runtime model monitor (lock model) over an exhaustively enumerated scenario space",
         ref="DESIGN.md section 3 C12"),
+    "C20": dict(
+        engine="svh",
+        text="2..16 threads start on a barrier with seeded jitter and run generated client programs that load shared frozen modules (or, in the first-use variant, build globals and modules under contention), "
+             "freeze their own modules and hand them to a neighbour thread that observes and drops them; each thread's transcript and every frozen-module observation must equal the sequential run. "
+             "Thorough adds ThreadSanitizer (build-std; reports with a frame in /repo, deduplicated, 3 repetitions) and ASan builds. Held on the interleavings the scheduler produced.",
+        note="trusted: OS scheduler + TSan happens-before for reach; hook H2 poisons arenas dropped on other threads (off under TSan); reports entirely inside std/harness are not counted",
+        technique="concurrent-vs-sequential transcript monitor + ThreadSanitizer/AddressSanitizer builds",
+        ref="DESIGN.md section 3 C20"),
     "C11": dict(
         engine="svmap",
         text="Every observation of the real containers is compared with a Vec model after every step of random long histories (length walks across "
